@@ -137,6 +137,23 @@ func c14RPC(w *env.World, d *env.Direct, kind, outcome, tag string) {
 	if outcome == "openfail" {
 		d.Pipe.A.FailNextWrites = 1
 	}
+	if outcome == "cancelinopen" {
+		// the cancellation lands while the stream-opening envelope is inside the transport write, and whatever
+		// already runs on behalf of the stream reacts before that write returns (accepted or given up)
+		prev := d.Pipe.A.OnWrite
+		fired := false
+		d.Pipe.A.OnWrite = func(k int, rpc *env.Rpc) {
+			if prev != nil {
+				prev(k, rpc)
+			}
+			if !fired && rpc.GetBody() == nil && rpc.GetTrailer() == nil && rpc.GetReset_() == nil && hasTag(rpc, tag) {
+				fired = true
+				cancel()
+				vsched.Yield("cancelled-in-open")
+			}
+		}
+		defer func() { d.Pipe.A.OnWrite = prev }()
+	}
 	cs := w.Open(d.CC, ctx, r)
 	if cs == nil {
 		return
@@ -223,14 +240,14 @@ func c14RPC(w *env.World, d *env.Direct, kind, outcome, tag string) {
 func c14(tier string) []*explore.Scenario {
 	var out []*explore.Scenario
 	kinds := []string{"Unary", "Bidi", "SStream", "CStream"}
-	outcomes := []string{"ok", "herr", "cancel0", "cancel1", "cancel2", "cancel3", "deadline", "reset", "lateempty", "openfail", "sendfail", "cancelsend", "cancelinsend", "deadline-sub-ms", "sendbad", "sendbad-utf8"}
+	outcomes := []string{"ok", "herr", "cancel0", "cancel1", "cancel2", "cancel3", "deadline", "reset", "lateempty", "openfail", "sendfail", "cancelsend", "cancelinsend", "deadline-sub-ms", "sendbad", "sendbad-utf8", "cancelinopen"}
 	bound := 1
 	if tier == "thorough" {
 		bound = 2
 	}
 	for _, k := range kinds {
 		for _, o := range outcomes {
-			if k == "Unary" && (o == "reset" || o == "lateempty" || o == "sendfail" || o == "cancelinsend" || strings.HasPrefix(o, "sendbad") || (strings.HasPrefix(o, "cancel") && o != "cancel0")) {
+			if k == "Unary" && (o == "reset" || o == "lateempty" || o == "sendfail" || o == "cancelinsend" || o == "cancelinopen" || strings.HasPrefix(o, "sendbad") || (strings.HasPrefix(o, "cancel") && o != "cancel0")) {
 				continue
 			}
 			out = append(out, c14One([][2]string{{k, o}}, bound))
@@ -668,3 +685,13 @@ type okCodedError struct{}
 
 func (okCodedError) Error() string              { return "failed, but with an OK-coded status" }
 func (okCodedError) GRPCStatus() *status.Status { return status.New(codes.OK, "not really ok") }
+
+// hasTag: the envelope's request metadata carries the harness's call tag
+func hasTag(rpc *env.Rpc, tag string) bool {
+	for _, kv := range rpc.GetHeader().GetHeaders() {
+		if kv.GetKey() == "tag" && kv.GetValue() == tag {
+			return true
+		}
+	}
+	return false
+}
